@@ -166,6 +166,10 @@ func Value(r *mon.Rand, depth int) any {
 			// a Go time value (whole seconds): the library's encoder writes it as an untagged epoch integer
 			return time.Unix(int64(1600000000+r.Intn(200000000)), 0).UTC()
 		}
+		if r.Intn(5) == 0 {
+			// a single-precision Go value
+			return mon.Pick(r, float32(1.5), float32(-0.1), float32(3.4028235e38), float32(1e-40))
+		}
 		fs := []float64{0, 1.5, -2.25, 1e300, -1e-300, 3.4028234663852886e+38, 65504, 1.0e10}
 		return fs[r.Intn(len(fs))]
 	case 5, 6:
@@ -267,7 +271,15 @@ func GoHeader(r *mon.Rand, o HeaderOpts, forbidIV bool) (m map[any]any, usedIV i
 				put(16, mon.Pick(r, "application/cose", "a/b"))
 			}
 		case 4: // CWT claims
-			put(15, map[any]any{int64(1): "issuer", int64(2): "subject", int64(6): int64(1700000000)})
+			switch r.Intn(3) {
+			case 0:
+				put(15, map[any]any{int64(1): "issuer", int64(2): "subject", int64(6): int64(1700000000)})
+			case 1:
+				put(15, cose.CWTClaims{int64(1): "issuer", int64(2): "subject", int64(6): int64(1700000000)})
+			default:
+				// private-use claim keys whose bytewise order and length-first order differ
+				put(15, cose.CWTClaims{int64(1): "issuer", int64(-70000): int64(1), "a": int64(2), "zz": []byte{3}, int64(100000): "x", int64(24): true})
+			}
 		case 5: // x5chain-like
 			put(33, BytesValue(r))
 		case 6:
